@@ -37,6 +37,7 @@ type Config struct {
 	InitPkgs    []string
 	MapPerm     bool
 	Tier        string
+	Merge       map[string]bool // callees explored exhaustively and merged into one ite result
 }
 
 type ObStat struct {
@@ -81,6 +82,7 @@ type Exec struct {
 	Steps       int64
 	Forks       int64
 	UnwindFail  int64
+	MergedPaths int64
 	Aborts      []string
 	Assumptions map[string]bool
 	FuncsHit    map[string]int
@@ -102,9 +104,10 @@ type Worker struct {
 
 // M is a worker executing a state.
 type M struct {
-	ex *Exec
-	w  *Worker
-	st *State
+	ex    *Exec
+	w     *Worker
+	st    *State
+	local *[]*State // when non-nil, forks go to this local worklist (callee merging)
 }
 
 func NewExec(prog *ssa.Program, harness *ssa.Package, entry *ssa.Function, cfg Config) *Exec {
@@ -227,6 +230,10 @@ func (m *M) runState() {
 		if atomic.LoadInt32(&ex.stop) != 0 {
 			return
 		}
+		if st.StopDepth > 0 && len(st.Frames) < st.StopDepth {
+			st.Status = MergedRet
+			break
+		}
 		if !ex.Deadline.IsZero() && st.Steps%512 == 0 && time.Now().After(ex.Deadline) {
 			ex.TimedOut = true
 			atomic.StoreInt32(&ex.stop, 1)
@@ -241,7 +248,10 @@ func (m *M) runState() {
 		}
 		m.stepSafe()
 	}
-	atomic.AddInt64(&ex.Steps, int64(st.Steps))
+	atomic.AddInt64(&ex.Steps, int64(st.Steps-st.Steps0))
+	if st.StopDepth > 0 {
+		return
+	}
 	switch st.Status {
 	case Done:
 		atomic.AddInt64(&ex.PathsDone, 1)
@@ -424,12 +434,17 @@ func (m *M) Decide(c *smt.Term) bool {
 		alt.ID = int(atomic.AddInt64(&m.ex.stateCtr, 1))
 		alt.Depth++
 		alt.logging = false
-		atomic.AddInt64(&m.ex.Paths, 1)
 		atomic.AddInt64(&m.ex.Forks, 1)
-		if int(atomic.LoadInt64(&m.ex.Paths)) > m.ex.Cfg.MaxPaths {
-			abortf("max paths exceeded")
+		if m.local != nil {
+			*m.local = append(*m.local, alt)
+			atomic.AddInt64(&m.ex.MergedPaths, 1)
+		} else {
+			atomic.AddInt64(&m.ex.Paths, 1)
+			if int(atomic.LoadInt64(&m.ex.Paths)) > m.ex.Cfg.MaxPaths {
+				abortf("max paths exceeded")
+			}
+			m.ex.push(alt)
 		}
-		m.ex.push(alt)
 		st.decisions = append(st.decisions, 1)
 		st.PC = append(st.PC, c)
 		st.Depth++
@@ -873,6 +888,10 @@ func (m *M) popReturn(f *Frame, res Value) {
 	st.Frames = st.Frames[:len(st.Frames)-1]
 	if len(st.Frames) == 0 {
 		st.Status = Done
+		return
+	}
+	if st.StopDepth > 0 && len(st.Frames) == st.StopDepth-1 {
+		st.MergeResult = res
 		return
 	}
 	caller := st.top()
